@@ -493,7 +493,7 @@ class Engine:
 
         rng = random.Random(plan["order_seed"] + 1)
         n_f = min(len(files), rng.choice([2, 2, 3]))
-        folders = [os.path.join(sandbox, "f%d" % k) for k in range(n_f)]
+        folders = [os.path.join(sandbox, n) for n in ["lib", "lib2", "lib_more"][:n_f]]  # (names that are string prefixes of each other)
         for d in folders:
             os.makedirs(d)
         for k, (rel, txt, _own) in enumerate(files):
